@@ -79,6 +79,15 @@ srv.time = types.SimpleNamespace(
 )
 
 
+def conc(x, lo, hi):
+    """Turn a small symbolic integer into a concrete one by forking on its value (one path per value): data derived from it
+    (slices of byte strings, loop bounds) then stays concrete instead of dragging symbolic bytes through C-level code."""
+    for v in range(lo, hi + 1):
+        if x == v:
+            return v
+    raise ValueError("value outside the stated range")
+
+
 def reset_logs():
     SERVER_LOG.records.clear()
     CLIENT_LOG.records.clear()
